@@ -18,7 +18,6 @@ if 'PYTHONHASHSEED' not in os.environ:
     os.environ['PYTHONHASHSEED'] = '0'
     os.execv(sys.executable, [sys.executable] + sys.argv)
 
-sys.setrecursionlimit(3000)
 import warnings
 warnings.simplefilter("ignore")
 
